@@ -1,6 +1,6 @@
 package harness
 
-// Native (coverage-guided) fuzz targets, used by the thorough tiers of C05 and C07.
+// Native (coverage-guided) fuzz targets, used by the thorough tiers of C05, C06 and C07.
 // Each target carries its oracle; the saved failing input is the reproducible unit.
 
 import (
@@ -70,6 +70,20 @@ func FuzzParseDiff(f *testing.F) {
 			return
 		}
 		o := c07Check(docCase{Text: data})
+		if o.Fail != "" && o.Known == "" {
+			t.Fatal(o.Fail)
+		}
+	})
+}
+
+// FuzzRoundTrip: C06 on whatever texts the coverage-guided search makes Parse accept.
+func FuzzRoundTrip(f *testing.F) {
+	for i, s := range fuzzSeeds {
+		f.Add(s, byte(i*7))
+	}
+	f.Fuzz(func(t *testing.T, data string, bits byte) {
+		o := c06Check(c06Case{Text: data, Opts: optsModel{IndexChildren: int(bits & 1), IndexGeometry: int(bits & 1), IndexGeometryKind: int(bits>>1) & 1,
+			RequireValid: bits&4 != 0, AllowSimplePoints: bits&8 != 0, DisableCircleType: bits&16 != 0, AllowRects: bits&32 != 0}})
 		if o.Fail != "" && o.Known == "" {
 			t.Fatal(o.Fail)
 		}
